@@ -814,6 +814,14 @@ def mutants(tree):
                expect="index-clip"),
         Mutant("cider_ind_clip: lower clamp dropped", CC_REL, "di_g[g] = (cond ? di : 0);", "di_g[g] = di;",
                expect="index-clip"),
+        Mutant("v1: per-spin SEP mask merged into the summed-density mask", XE,
+               "            if self.mode == \"SEP\":\n                cond = X0T[:, 0] < rhocut\n                for s in range(X0T.shape[0]):\n                    res[s][cond[s]] = 0.0\n                    dres[s][:, cond[s]] = 0.0\n            else:\n                cond = X0T[:, 0].sum(0) < rhocut\n                res[..., cond] = 0.0\n                dres[..., cond] = 0.0\n",
+               "            cond = X0T[:, 0].sum(0) < rhocut\n            res[..., cond] = 0.0\n            dres[..., cond] = 0.0\n",
+               expect="cutoff-pair"),
+        Mutant("v2: SEP value and derivative zeroed under the summed-density mask", XE2,
+               "            if self.mode == \"SEP\":\n                f[cond] = 0.0\n                df[cond] = 0.0\n",
+               "            if self.mode == \"SEP\":\n                tot = rho_tuple[0].sum(0) < rhocut\n                f[:, tot] = 0.0\n                df[:, tot] = 0.0\n",
+               expect="cutoff-pair"),
         Mutant("zero only res under rhocut", XE, "                res[..., cond] = 0.0\n                dres[..., cond] = 0.0\n",
                "                res[..., cond] = 0.0\n", expect="cutoff-pair"),
         Mutant("zero only f under rhocut (v2 SEP)", XE2, "                f[cond] = 0.0\n                df[cond] = 0.0\n", "                f[cond] = 0.0\n",
